@@ -212,6 +212,13 @@ pub fn run(ctx: &Ctx) -> PropResult {
         // a Time accepts any Offset::Fixed(i32); differences are defined on the stored time and may not depend on it
         let anyoff = |rng: &mut Rng| if rng.chance(1, 6) { *rng.pick(&[-86_401i32, -86_400, 86_400, 86_401, -200_000, 200_000, i32::MIN, i32::MAX, -1_000_000]) } else { gen_offset(rng) };
         let (o1, o2) = (anyoff(rng), anyoff(rng));
+        let (n1, n2) = if rng.chance(1, 5) {
+            let (a, b, tag) = crate::model::magic::alias_time_pair(rng, n1);
+            rec.bin(tag);
+            (a, b)
+        } else {
+            (n1, n2)
+        };
         judge_time_pair(rec, n1, n2, o1, o2);
     }));
     wls.push(Workload::cases("date_pairs", ctx.count(100_000, 3_000_000), |rec, _, rng| {
@@ -282,6 +289,7 @@ pub fn run(ctx: &Ctx) -> PropResult {
         "outward/local-reading-beyond-the-range-end",
         "sequence/sibling-calls",
         "local-twin/judged", "local-twin/synthetic-fixed-zone", "local-twin/real-zone-with-transitions",
+        "alias/radix-fold", "alias/xor-fold", "alias/bitwise-unit-relative", "alias/wrapped-residue",
         "pair/equal-instant", "pair/straddles-0001-01-01", "pair/sub-second", "pair/straddles-midnight-within-24h",
         "seconds/remainder-borrow", "hours/remainder-borrow", "days/remainder-borrow", "minutes/below-one-unit", "millis/negative-days-path", "days/negative-days-path",
         "nanos/diff0", "time/hours/remainder-borrow", "time/seconds/below-one-unit", "date/straddles-era", "add-inverse/checked",
